@@ -18,6 +18,7 @@ ENGINE = "detsim"
 LEVEL = "exploration"
 BUDGET = {"quick": 60, "thorough": 900}
 RUN_TIMEOUT = 300
+SHRINK_MAX_S = 45
 SELFTEST_PAIRS = {"quick": 6, "thorough": 16}
 HARNESS_TOLERANCE = 0.0
 PROBES = ["clock_read_during_extraction", "hashseed_differs", "heap_shifted", "nonzero_start_position", "observer_history",
@@ -189,9 +190,11 @@ def _run_config(case):
             path, va, vb, tname = "?", None, None, "?"
             try:
                 ta = _spawn(cfgs[i_a], [d], case["pos_seed"], [n])["results"][n]
-                tb = _spawn(cfgs[i_b], [d], case["pos_seed"], [n])["results"][n]
-                if "tree" in ta and "tree" in tb:
-                    fd = canon.first_diff(ta["tree"], tb["tree"])
+                tb = ta if i_a == i_b else _spawn(cfgs[i_b], [d], case["pos_seed"], [n])["results"][n]
+                if ta.get("trees") and tb.get("trees"):
+                    t1 = ta["trees"][0]
+                    t2 = ta["trees"][1] if (same_proc and len(ta["trees"]) > 1) else tb["trees"][0]
+                    fd = canon.first_diff(t1, t2)
                     if fd:
                         path, va, vb = fd
                     tname = (ta.get("types") or ["?"])[0]
@@ -200,8 +203,8 @@ def _run_config(case):
             except Exception as e:  # the diff is diagnostics only
                 path = "diff-failed:" + type(e).__name__
             gp = canon.generic_path(path)
-            if path == "?" and same_proc:
-                gp = "second_extraction_in_same_process"
+            if path == "?":
+                gp = "second_extraction_in_same_process" if same_proc else "unlocated"
             small = dict(case, docs=[d], configs=[cfgs[i_a], cfgs[i_b]] if i_a != i_b else [cfgs[i_a]])
             viol.append({"class": "nondeterministic_result", "sig": f"{tname}|{gp}", "case": small,
                          "detail": f"{n} ops={d['ops']}: to_json differs between configurations {i_a} and {i_b} at {path}: {str(va)[:120]!r} vs {str(vb)[:120]!r}; digests={ds}"})
